@@ -22,10 +22,12 @@ theorem accepted_names_canonical (c : Coll) (hW : wf c = true) (p : List CName) 
     canonical c p :=
   accepted_canonical c hW p hp
 
-/-- the same at the level of dotted strings: `name` ↦ `name.split(".")` -/
+/-- the same at the level of dotted strings (`name` ↦ `name.split(".")`, parser keys ↦ `".".join`):
+    the round trip is exact because no component of an accepted name contains a dot -/
 theorem cli_names_eq_lookup_dotted (c : Coll) (hW : wf c = true) (n : CName) (hc : canonical c (splitOnDot n)) :
-    splitOnDot n ∈ acceptedNames c ↔ resolves (c.getitem n) = true :=
-  cli_names_eq_lookup_c c hW (splitOnDot n) hc
+    n ∈ acceptedStrings c ↔ resolves (c.getitem n) = true := by
+  rw [mem_acceptedStrings c hW n]
+  exact cli_names_eq_lookup_c c hW (splitOnDot n) hc
 
 /-- Each accepted name runs the very task that lookup returns (with the very same settings): the
     parser context found for the token carries the entry's primary name, and `collection[primary]`
@@ -47,6 +49,28 @@ theorem transform_consistent (a b : Bool) (x : CName) (c : Coll) (p : List CName
     transform a (transform a x) = transform a x ∧ transform a (transform b x) = transform a x ∧
     c.twc (p.map (transform b)) = c.twc p :=
   ⟨transform_idem a x, transform_comp a b x, twc_transform_invariant c b p⟩
+
+/-- LISTINGS, each binding exactly once in every format.  `bindings c anc` enumerates the task bindings
+    of the tree (collection path, binding name, default flag, lexicon aliases), each exactly once.  The
+    flat listing is exactly one line per binding, the task lines of the nested listing are exactly one
+    per binding, and the task records of the JSON document are exactly one per binding - each carrying
+    the binding name and exactly the lexicon aliases (declared on the task and given to `add_task`). -/
+theorem listing_once_all_formats (c : Coll) (anc : List CName) :
+    flatPairs c anc = (bindings c anc).map Binding.flat ∧
+    (nestedPairs c anc).filter NLine.isTask = (bindings c anc).map Binding.nested ∧
+    jsonTasks (serialized c) = (bindings c anc).map (fun b => (b.key, b.aliases)) :=
+  ⟨flat_eq_bindings c anc, nested_eq_bindings c anc, json_eq_bindings c anc⟩
+
+/-- …and the bindings are the parser contexts: in a well-formed tree with ONE `auto_dash_names` setting
+    the bindings correspond one-to-one and in order to the `task_names` entries: the listed dotted name
+    is the entry's primary (CLI) name, every listed alias is an alias of the entry, and the entry has no
+    further alias except collection-name shortcuts (proper prefixes of the name).
+    `_partial`: (i) trees mixing `auto_dash_names` settings are excluded - there the listing prints the
+    sub-collection's own spelling (`mixed_dash_listing_counterexample`, known finding N4); (ii) pairwise
+    distinctness of the primary names is not proved here (the harness checks it per tree). -/
+theorem listing_once_partial (c : Coll) (hW : wf c = true) (hU : uniformDash c.autoDash c = true) :
+    Pairs (Matches []) (bindings c []) (taskNames c) :=
+  bindings_match c c.autoDash hW hU []
 
 /-! ## non-vacuity and the behaviour before the repairs -/
 
@@ -76,6 +100,23 @@ example : ¬ canonical root [S "in_ner"] := fun h => absurd (h.2 (S "in_ner") (b
 -- the parent re-normalises what its sub-collections produced: underscores with the flag off at the root
 example : (taskNames mixed).map (·.1) =
     [[S "top_x"], [S "in_ner", S "u"], [S "in_ner", S "b", S "t"], [S "in_ner", S "b", S "my_task"]] := by decide
+
+example : uniformDash root.autoDash root = true := by decide
+example : (bindings root []).map Binding.flat =
+    [([S "top"], [[S "al"]]),
+     ([S "in-ner", S "u"], []),
+     ([S "in-ner", S "b", S "t"], [[S "in-ner", S "b"], [S "in-ner", S "b", S "tt"], [S "in-ner", S "b", S "x-t"]]),
+     ([S "in-ner", S "b", S "my-task"], [])] := by decide
+example : [S "in-ner", S "b", S "t"] ∈ acceptedNames root ∧ S "in-ner.b.t" ∈ acceptedStrings root := by decide
+example : canonical root (splitOnDot (S "in-ner.b.x-t")) := ⟨by decide, by decide⟩
+
+/-- known finding N4: with the flag off at the root only, the flat listing prints the sub-collection's
+    own spelling `in_ner.b.my-task`, while the parser is keyed by `in_ner.b.my_task` -/
+theorem mixed_dash_listing_counterexample :
+    uniformDash mixed.autoDash mixed = false ∧
+    [S "in_ner", S "b", S "my-task"] ∈ (flatPairs mixed []).map (·.1) ∧
+    [S "in_ner", S "b", S "my-task"] ∉ acceptedNames mixed ∧
+    [S "in_ner", S "b", S "my_task"] ∈ acceptedNames mixed := by decide
 
 /-- before "aliases given to add_task are accepted as CLI task names": a lexicon alias that is not the
     task's own was resolved by lookup but missing from the parser -/
